@@ -490,6 +490,47 @@ func checkPacket(q parsedCfg, p packet, f fate) string {
 	return ""
 }
 
+var addrPairs = [][2]string{
+	{"8.8.8.8", "2001:4860:4860::8888"}, {"127.0.0.1", "::1"}, {"10.1.2.3", "2001:db8::3"}, {"127.0.0.6", "::6"},
+	{"192.168.7.7", "fd00::7"}, {"127.0.0.53", "fd00::a"},
+}
+
+func pairedClause(cfgTokens []string, c rawCfg, q parsedCfg, rs *loaded) string {
+	h := fnv.New64a()
+	h.Write([]byte("pair " + strings.Join(cfgTokens, " ")))
+	r := wire.NewRng(h.Sum64())
+	k := boundary(c)
+	lo6 := netip.MustParsePrefix("::1/128")
+	class := func(a netip.Addr) [4]bool {
+		lo := lo6.Contains(a)
+		if a.Is4() {
+			lo = q.lo4.Contains(a)
+		}
+		servers := c.DNSV6
+		if a.Is4() {
+			servers = c.DNSV4
+		}
+		return [4]bool{lo, inAny(q.excl, a), q.inclAll || inAny(q.incl, a), has(servers, a.String())}
+	}
+	for i := 0; i < 16; i++ {
+		p4 := drawPacket(r, c, k)
+		sp, dp := wire.Pick(r, addrPairs), wire.Pick(r, addrPairs)
+		p4.v6, p4.src, p4.dst = false, netip.MustParseAddr(sp[0]), netip.MustParseAddr(dp[0])
+		p6 := p4
+		p6.v6, p6.src, p6.dst = true, netip.MustParseAddr(sp[1]), netip.MustParseAddr(dp[1])
+		// the embedding must hold for this configuration: same classification of both addresses
+		if class(p4.dst) != class(p6.dst) || (sp[0] == "127.0.0.6") != (sp[1] == "::6") {
+			continue
+		}
+		f4, f6 := rs.fate(p4), rs.fate(p6)
+		if f4.String() != f6.String() {
+			return fmt.Sprintf("FAIL v4_v6_same_policy:paired packet=%s fate=%s packet6=%s fate6=%s", strings.Join(p4.tokens(), "_"),
+				strings.ReplaceAll(f4.String(), " ", "_"), strings.Join(p6.tokens(), "_"), strings.ReplaceAll(f6.String(), " ", "_"))
+		}
+	}
+	return ""
+}
+
 // checkTproxyInbound: the inbound clauses in TPROXY mode (mangle table).
 func checkTproxyInbound(q parsedCfg, p packet, f fate, loopDst bool) string {
 	if f.dropped {
@@ -567,11 +608,16 @@ func intended(e envCase) (rawCfg, bool) {
 	def(&c.TProxyMark, "1337")
 	def(&c.ProxyUID, e.uid)
 	def(&c.ProxyGID, c.ProxyUID)
-	def(&c.OwnerGroupsInclude, "*")
+	if !e.emptyEnv[envOwnerGroupsInclude] { // set to the empty string = capture no group; unset = "*"
+		def(&c.OwnerGroupsInclude, "*")
+	}
 	def(&c.LoCidr, "127.0.0.1/32")
+	if e.addrErr {
+		return c, true
+	}
 	usable := []netip.Addr{}
 	for _, s := range e.addrs {
-		a, err := netip.ParseAddr(s)
+		a, err := netip.ParseAddr(s) // "ipaddr:..." entries (not interface networks) do not parse: skipped
 		if err != nil {
 			continue
 		}
@@ -649,7 +695,25 @@ func oracle(stream, in, outPath string) {
 		}
 		verdict = ""
 	}
+	var applyCfgs []rawCfg
 	for _, t := range wire.ReadLines(in) {
+		if stream == "apply" {
+			switch t[0] {
+			case "case":
+				flush()
+				started = true
+				applyCfgs = nil
+			case "cfg":
+				if c, ok := rawFromTokens(t); ok {
+					applyCfgs = append(applyCfgs, c)
+				}
+			case "apply":
+				if len(applyCfgs) == 2 && verdict == "" {
+					verdict = applyCase(applyCfgs[0], applyCfgs[1], t)
+				}
+			}
+			continue
+		}
 		switch t[0] {
 		case "case":
 			flush()
@@ -710,6 +774,11 @@ func oracle(stream, in, outPath string) {
 					if strings.Contains(x, "-restore") && !strings.Contains(x, "--noflush") && verdict == "" {
 						verdict = "FAIL restore-flushes " + strings.ReplaceAll(x, " ", "_")
 					}
+				}
+				// "IPv4 and IPv6 express the same policy": paired packets - the same connection attempt in both
+				// families, addresses the configuration classifies alike - must meet the same fate
+				if c.IPv6 && verdict == "" {
+					verdict = pairedClause(t, c, q, rs)
 				}
 				if stream == "rules" && verdict == "" {
 					// no packets in this stream: search over this configuration's boundary packets
